@@ -23,6 +23,8 @@ def main():
         mc=[('MC_SpinePaths', 'MC_SpinePaths_opts.cfg', 'MC_SpinePaths(FilterIdentity, SubsequenceLaw, CommuteLaw)')],
         populations=[('main', dp.sess_c05, 50, 900, {}),
                      ('multi_character_signifiers', dp.sess_c05, 8, 150, {'profile': 'multi_sigs'}),
+                     ('root_spines', dp.sess_c05, 8, 120, {'profile': 'with_root', 'enc': 'kern'}),
+                     ('root_spines_extended', dp.sess_c05, 6, 120, {'profile': 'with_root', 'enc': 'ekern'}),
                      ('all_pairs', dp.sess_c05_allpairs, 3, 50, {})],
         nontrivial=lambda s: bool(set(s['tags']) & {'chord', 'non-kern', 'all-pairs'}))
 
